@@ -235,7 +235,17 @@ let run_solve (h : (string, string) Hashtbl.t) : string =
          match sol_eval fops meth (nat_of_int (List.length y0)) s q with
          | SolOk v -> Buffer.add_string buf (Printf.sprintf "sol %s ok %s\n" (hx q) (hxlist v))
          | SolNotEnabled -> Buffer.add_string buf (Printf.sprintf "sol %s notenabled\n" (hx q))
-         | SolOutOfRange -> Buffer.add_string buf (Printf.sprintf "sol %s outofrange\n" (hx q))) query);
+         | SolOutOfRange -> Buffer.add_string buf (Printf.sprintf "sol %s outofrange\n" (hx q))) query;
+       let nn = nat_of_int (List.length y0) in
+       let okq = List.filter (fun q -> match sol_eval fops meth nn s q with SolOk _ -> true | _ -> false) query in
+       List.iter (fun (tag, list, each) ->
+           match sol_many fops meth nn s list with
+           | SolManyOk vs ->
+             if each then List.iter2 (fun t v -> Buffer.add_string buf (Printf.sprintf "solm %s %s ok %s\n" tag (hx t) (hxlist v))) list vs
+             else Buffer.add_string buf (Printf.sprintf "solm %s ok %d\n" tag (List.length vs))
+           | SolManyNotEnabled -> Buffer.add_string buf (Printf.sprintf "solm %s notenabled\n" tag)
+           | SolManyOutOfRange t -> Buffer.add_string buf (Printf.sprintf "solm %s outofrange %s\n" tag (hx t)))
+         [("f", okq, true); ("r", List.rev okq, true); ("a", query, false)]);
   Buffer.contents buf
 
 (* ---------------- matrix / lu ---------------- *)
